@@ -329,3 +329,81 @@ def dotted(node) -> Optional[str]:
         parts.append(node.id)
         return '.'.join(reversed(parts))
     return None
+
+
+# ------------------------------------------------------------------------------------------ reachability
+API_ROOT_NAMES = {
+    '__init__', 'connect', 'add_in_edges', 'add_out_edges', 'update_final_state_time', 'reserve_put', 'reserve_get', 'put', 'get',
+    'reserve_put_cancel', 'reserve_get_cancel', 'can_put', 'can_get', 'occupancy', 'items', 'ready_items', 'get_occupancy', 'get_items',
+    'get_ready_items', 'append', 'add_item', 'remove_item', 'set_creation', 'set_destruction', 'update_node_event', '__repr__',
+}
+
+
+def reachable(p: Project):
+    """Keys of the functions reachable from the public API (flow-insensitive, conservative).
+
+    Roots: constructors and the public protocol / reporting methods (names above, plus update_final_*).  Edges of the
+    call graph: `self.m` (call, spawn or method value) resolves in the class hierarchy; `super().m`; `x.m(...)` on any
+    other receiver resolves by name to every class that defines `m`; bare names resolve to module-level functions and
+    class constructors."""
+    cache = p.__dict__.setdefault('_reach_cache', None)
+    if cache is not None:
+        return cache
+    by_name: Dict[str, List[FuncInfo]] = {}
+    for ci in p.classes.values():
+        for fi in ci.methods.values():
+            by_name.setdefault(fi.name, []).append(fi)
+    modfuncs: Dict[str, List[FuncInfo]] = {}
+    for m in p.modules.values():
+        for fi in m.functions.values():
+            modfuncs.setdefault(fi.name, []).append(fi)
+    work: List[FuncInfo] = []
+    for ci in p.classes.values():
+        for name, fi in ci.methods.items():
+            if name in API_ROOT_NAMES or (name.startswith('update_final_')):
+                work.append(fi)
+    for m in p.modules.values():
+        for fi in m.functions.values():
+            if not fi.name.startswith('_'):
+                work.append(fi)          # public module-level helpers (constructs, utils) are API
+    seen = set()
+    while work:
+        fi = work.pop()
+        if fi.key in seen:
+            continue
+        seen.add(fi.key)
+        for n in walk_no_nested(fi.node):
+            if isinstance(n, ast.Attribute) and not isinstance(n.ctx, ast.Store):
+                v = n.value
+                if isinstance(v, ast.Name) and v.id == 'self' and fi.cls:
+                    t = p.method((fi.module, fi.cls), n.attr)
+                    if t is not None:
+                        work.append(t)
+                    # a subclass may override the method reached through self
+                    for sub in p.subclasses((fi.module, fi.cls)):
+                        if n.attr in sub.methods:
+                            work.append(sub.methods[n.attr])
+                elif isinstance(v, ast.Call) and isinstance(v.func, ast.Name) and v.func.id == 'super' and fi.cls:
+                    t = p.super_method((fi.module, fi.cls), n.attr)
+                    if t is not None:
+                        work.append(t)
+                elif n.attr in by_name and not n.attr.startswith('__'):
+                    work.extend(by_name[n.attr])
+            elif isinstance(n, ast.Name) and isinstance(n.ctx, ast.Load):
+                if n.id in modfuncs:
+                    work.extend(modfuncs[n.id])
+                k = p.resolve_class_name(fi.module, n.id)
+                if k is not None:
+                    init = p.method(k, '__init__')
+                    if init is not None:
+                        work.append(init)
+        # nested lambdas / defs: their bodies may reference methods too
+        for n in ast.walk(fi.node):
+            if isinstance(n, ast.Lambda):
+                for x in ast.walk(n):
+                    if isinstance(x, ast.Attribute) and isinstance(x.value, ast.Name) and x.value.id == 'self' and fi.cls:
+                        t = p.method((fi.module, fi.cls), x.attr)
+                        if t is not None:
+                            work.append(t)
+    p.__dict__['_reach_cache'] = seen
+    return seen
